@@ -13,19 +13,30 @@ EXTENDS ConformAll, Json, IOUtils
 
 Rec == ndJsonDeserialize(IOEnv.TRACE)
 
-VARIABLES l, fails
+VARIABLES l, fails,
+          memo      \* C19: what each call of a threaded / repeated run returned the first time it was seen
 
-TInit == l = 1 /\ fails = << >>
+TInit == l = 1 /\ fails = << >> /\ memo = << >>
+
+\* Calls issued from several threads, or repeated in different orders, carry the index of the case
+\* (idx), the index of the call inside it (call) and a signature of everything observable about the
+\* call's outcome (sig).  The codec keeps no state: the same call must always have the same signature.
+IsRepeated(ev) == Has(ev, "sig") /\ Has(ev, "call")
+Key(ev) == <<ev.idx, ev.call, IF Has(ev, "build") THEN ev.build ELSE "">>
+Known(ev) == \E i \in 1..Len(memo) : memo[i][1] = Key(ev)
+FirstSig(ev) == memo[CHOOSE i \in 1..Len(memo) : memo[i][1] = Key(ev)][2]
 
 TNext ==
   /\ l <= Len(Rec)
   /\ LET ev == Rec[l]
          tags == EventTags(ev)
+                   \o (IF IsRepeated(ev) /\ Known(ev) /\ FirstSig(ev) # ev.sig THEN <<"nondeterministic">> ELSE << >>)
      IN /\ l' = l + 1
+        /\ memo' = IF IsRepeated(ev) /\ ~Known(ev) THEN Append(memo, <<Key(ev), ev.sig>>) ELSE memo
         /\ fails' = IF tags = << >> THEN fails
                     ELSE Append(fails, [line |-> l, id |-> ev.id, e |-> ev.e, tags |-> tags])
 
-TSpec == TInit /\ [][TNext]_<<l, fails>>
+TSpec == TInit /\ [][TNext]_<<l, fails, memo>>
 
 \* always true; writes the verdicts once the whole trace has been consumed
 Report ==
